@@ -5,16 +5,25 @@
 
    Proved for ALL inputs: the library's tables and constants are the canonical ones; its
    table-driven, zero-augmented CRC is CRC-16/XMODEM; every stream carries the canonical B2
-   header.  The two cross-decoding statements are kept as Props and decided per run by the
-   correspondence check (both directions, both header modes). *)
-From Verif Require Import Base.Bytes Lzhuf.Huff Lzhuf.Enc Lzhuf.Crc Lzhuf.CrcP Lzhuf.Dec Lzhuf.LzP
-  Lzhuf.Canon gen.Tables.
+   header; the reference's adaptive Huffman tree IS the library's after every update
+   (C07_same_tree) and its bitwise CRC is the library's (C07_reference_crc); the FORMAT is
+   pinned by the token layer (Lzhuf/Tokens.v: literals and (position, length) matches over
+   the 2048-byte ring, Huffman-coded under the evolving tree, position code from the
+   canonical tables): the reference decoder decodes every well-formed token stream to its
+   expansion (C07_reference_decodes_format) and so does the library's reader, for every Read
+   buffer size (C07_library_decodes_format) -- whoever produced the stream; and every stream
+   the library's compressor produces IS of that format, so the reference decodes it to the
+   input (C07_lib_to_reference, the first cross-decoding statement, for all inputs).  The
+   second statement proper (what the reference's own ENCODER emits is decoded by the
+   library) follows from C07_library_decodes_format once the reference encoder is shown to
+   emit the format; that is a statement about the reference, kept as a Prop below and decided
+   per run by the correspondence check (both header modes; the reference reproduces the
+   golden .lzh files byte for byte). *)
+From Verif Require Import Base.Bytes Lzhuf.Huff Lzhuf.HuffInv Lzhuf.Enc Lzhuf.Crc Lzhuf.CrcP Lzhuf.Dec
+  Lzhuf.LzP Lzhuf.Bits Lzhuf.Tokens Lzhuf.TokDecP Lzhuf.CanonDecP Lzhuf.LzhufP Lzhuf.Canon gen.Tables.
 Open Scope N_scope.
 
-(* FULL STATEMENTS (not asserted) *)
-Definition C07_lib_to_canon_statement : Prop :=
-  forall (crc : bool) (x : bytes), Forall (fun b => b < 256) x ->
-    (Z.of_nat (length x) < 2147483648)%Z -> Canon.decode crc (compress crc x) = Some x.
+(* FULL STATEMENT of the direction that is not yet a theorem (not asserted) *)
 Definition C07_canon_to_lib_statement : Prop :=
   forall (crc : bool) (x : bytes) (bs : nat), Forall (fun b => b < 256) x ->
     (Z.of_nat (length x) < 2147483648)%Z -> (0 < bs)%nat ->
@@ -67,6 +76,55 @@ Theorem C07_header : forall x,
   Forall (fun b => b < 256) (body_of x).
 Proof. exact compress_header. Qed.
 Print Assumptions C07_header.
+
+(* the reference's adaptive Huffman tree is the library's: same initial tree, and one
+   update of the reference equals one update of the library on every tree satisfying the
+   invariant (hence on every tree either side can reach) *)
+Theorem C07_same_tree :
+  Canon.start_huff = hf_of huff_init /\
+  forall h c, Inv h -> c < lz_NumChar -> Canon.bump (hf_of h) c = hf_of (update h c).
+Proof. split; [exact canon_start|exact canon_bump]. Qed.
+Print Assumptions C07_same_tree.
+
+(* the reference's bitwise CRC equals the library's table-driven one on every byte string *)
+Theorem C07_reference_crc : forall p, Forall (fun b => b < 256) p -> Canon.crc16 p = crc_impl p.
+Proof. exact canon_crc. Qed.
+Print Assumptions C07_reference_crc.
+
+(* the format, decoded by the reference: any well-formed token sequence, Huffman-coded from
+   the initial tree, padded to a byte, behind the size (and CRC) header *)
+Theorem C07_reference_decodes_format :
+  forall (crc : bool) (toks : list token) (body : bytes) (pad : list bool),
+    Forall tok_ok toks -> Forall (fun x => x < 256) body ->
+    bytes_bits body = toks_bits huff_init toks ++ pad ->
+    (Z.of_nat (length (expand win_init toks)) < 2147483648)%Z ->
+    let x := expand win_init toks in
+    let size := le32 (N.of_nat (length x)) in
+    let stream := (if crc then le16 (crc_impl (size ++ body)) else []) ++ size ++ body in
+    Canon.decode crc stream = Some x.
+Proof. exact canon_decode_tokens. Qed.
+Print Assumptions C07_reference_decodes_format.
+
+(* the same format, decoded by the library's reader with any positive Read buffer size *)
+Theorem C07_library_decodes_format :
+  forall (crc : bool) (toks : list token) (body : bytes) (pad : list bool) (bs : nat),
+    Forall tok_ok toks -> Forall (fun x => x < 256) body ->
+    bytes_bits body = toks_bits huff_init toks ++ pad -> (length pad < 8)%nat ->
+    (Z.of_nat (length (expand win_init toks)) < 2147483648)%Z -> (0 < bs)%nat ->
+    let x := expand win_init toks in
+    let size := le32 (N.of_nat (length x)) in
+    let stream := (if crc then le16 (crc_impl (size ++ body)) else []) ++ size ++ body in
+    read_all crc stream bs (S (S (length x))) = Some (x, REof, ErrNone).
+Proof. exact reader_decodes_tokens. Qed.
+Print Assumptions C07_library_decodes_format.
+
+(* library -> reference, for ALL inputs: the independent decoder decodes what the library's
+   compressor produces *)
+Theorem C07_lib_to_reference : forall (crc : bool) (x : bytes),
+  Forall (fun b => b < 256) x -> (Z.of_nat (length x) < 2147483648)%Z ->
+  Canon.decode crc (compress crc x) = Some x.
+Proof. exact reference_decodes_compress. Qed.
+Print Assumptions C07_lib_to_reference.
 
 (* the independent bitwise CRC of the reference and the model's specification agree on the
    standard check value CRC-16/XMODEM("123456789") = 0x31C3 *)
